@@ -258,6 +258,7 @@ func runC43(c c43Case) (string, c43Stats) {
 		domain[fmt.Sprintf("i%d", i)] = true
 	}
 	attemptAdd, attemptMayAdd, attemptDel, incs, recWrites, accAdds := 0, 0, 0, 0, 0, 0
+	uniqueUsed := false
 	for _, s := range c.Scripts {
 		w, it := false, false
 		for _, step := range s {
@@ -274,6 +275,12 @@ func runC43(c c43Case) (string, c43Stats) {
 			}
 			if o.ObMayDel {
 				attemptDel++
+			}
+			if step.Op == "ob.Unique!" {
+				// Unique! removes adjacent duplicates, which other scripts can
+				// legitimately create (ob[1]=v; PopFirst; ob[1]=v): any number of
+				// members may disappear, so there is no lower bound on the size
+				uniqueUsed = true
 			}
 			incs += o.Inc
 			recWrites += o.RecWrite
@@ -450,6 +457,9 @@ func runC43(c c43Case) (string, c43Stats) {
 	hi := c.NInit + 3 + attemptAdd + attemptMayAdd
 	if st.otherErr+st.duringSort == 0 {
 		lo = max(0, c.NInit+3+attemptAdd-attemptDel) // every Add completed
+	}
+	if uniqueUsed {
+		lo = 0
 	}
 	if st.finalOb < lo || st.finalOb > hi {
 		return fmt.Sprintf("final size of the shared object is %d, feasible %d..%d (%d initial, %d Add, %d may-add, %d may-delete operations)",
